@@ -111,6 +111,18 @@ package proxy
 //     watching: from the moment its own watcher was created (at the latest when
 //     NewServerPool returned) until close() is called. Reports made while close()
 //     runs are optional for that pool (may or may not be applied).
+//   * the other lifecycle order (fourth round): a reload with "gap" closes the
+//     slot's pool FIRST (pipeline deleted / pool removed from the proxy), leaves
+//     the slot without a pool for a while (requests for it are not issued; with
+//     one slot the registered registry has no watcher at all), then creates the
+//     next generation. The harness first lets the registry catch up with the
+//     notifications already sent (otherwise it falls back to create-then-close);
+//     while nobody watches, the fake registry's state changes silently (no
+//     notification: whether it would become a report is open). The new pool is
+//     judged as any other: its first listing is its list, later reports must
+//     reach it. A pool that never asks the registered driver at all is expected
+//     to serve what the registry holds at that moment (probe
+//     c04.pool_created_without_listing, never reached on the unchanged tree).
 //   * who asks the fake driver for a listing is read from the call stack
 //     (watchServers = synchronous first listing, NewServiceWatcher = initial
 //     event, _handleRegistryEvent = report for a notification); only the last
@@ -205,6 +217,7 @@ type c04Reload struct {
 	GapUs  int64 `json:"gap_us"`
 	Slot   int   `json:"slot"`
 	HoldUs int64 `json:"hold_us"` // between publishing the new generation and closing the old one: -1 nothing, 0 gate, >0 sleep
+	Gap    bool  `json:"gap"`     // the other order (pipeline deleted and created again later / pool removed and re-added): the old generation is closed FIRST, the slot has no pool for hold_us, then the next generation is created
 }
 
 type c04Op struct {
@@ -484,6 +497,9 @@ func c04Gen(rng *sim.Rand, tier string) interface{} {
 					if sc.SecondPool && rng.Bool(0.4) {
 						rl.Slot = 1
 					}
+					if rng.Bool(0.35) {
+						rl.Gap, rl.HoldUs = true, int64(rng.Pick(0, 0, 10, 200, 1000, 3000))
+					}
 					sc.Reloads = append(sc.Reloads, rl)
 				}
 			}
@@ -680,8 +696,9 @@ type c04Pool struct {
 	sp        *ServerPool
 	model     *c04Model
 	state     int
-	queued    int // events handed to this pool's watcher so far
-	selecting int // selections in flight on this pool
+	afterGap  bool // created after its predecessor had been closed (probes only)
+	queued    int  // events handed to this pool's watcher so far
+	selecting int  // selections in flight on this pool
 }
 
 func (m *c04Model) newGen(src string, list map[string]int, start int) *c04Generation {
@@ -1024,7 +1041,7 @@ func c04Exec(r *sim.Run, sci interface{}) {
 	slots := make([]*c04Pool, nSlots)
 	maxSelecting, maxOpen, open := 0, 0, 0
 	var fairChecked, stickyRepeated, zeroWeightMember, noServer, overlapSeen, retryAfterReplacement bool
-	var weightOnlyServed, tagOnlyServed, servedAfterReload, reportAfterReloadServed bool
+	var weightOnlyServed, tagOnlyServed, servedAfterReload, reportAfterReloadServed, servedAfterGap, reportAfterGapServed bool
 
 	fairCheck := func(p *c04Pool, when string) {
 		if policy != LoadBalancePolicyRoundRobin || r.Violated() {
@@ -1415,8 +1432,15 @@ func c04Exec(r *sim.Run, sci interface{}) {
 			}
 			p.state = c04Live
 		} else if len(p.model.gens) == 0 {
-			r.Violate("C04.other", "watchServers of pool %s did not list the service instances when the pool was created", p.name)
-			return nil
+			// the pool never asked the registered registry driver for the instances:
+			// by the statement (and doc: serviceRegistry + serviceName name where the
+			// servers come from) its list still has to be what the registry holds now
+			list, src := p.model.listFor(fake.cur)
+			g := p.model.newGen(src, list, 0)
+			g.installed, g.bornT = true, r.Now()
+			note("%s:no-listing:gen%d(%s,n=%d)=registry-state", p.name, g.id, src, g.n)
+			r.Eventf("%s created without any listing", p.name)
+			r.Probe("c04.pool_created_without_listing")
 		}
 		// from here on the pool has to follow every report for its service,
 		// whether or not the harness saw it register a watcher
@@ -1546,6 +1570,12 @@ func c04Exec(r *sim.Run, sci interface{}) {
 			}
 			if st.pool.gen > 0 {
 				servedAfterReload = true
+			}
+			if st.pool.afterGap {
+				servedAfterGap = true
+				if g.fifo > 0 {
+					reportAfterGapServed = true
+				}
 			}
 		}
 		if weighted && g.total > 0 {
@@ -1693,6 +1723,11 @@ func c04Exec(r *sim.Run, sci interface{}) {
 			slot = 0
 		}
 		pool := slots[slot]
+		if pool == nil {
+			// the slot's pipeline is deleted at the moment: nobody routes requests to it
+			r.Probe("c04.request_skipped_slot_has_no_pool")
+			return
+		}
 		st := &c04Sel{name: name, pool: pool, hold: op.HoldUs, selecting: true, fails: op.Fails, mirror: op.Mirror}
 		if st.fails < 0 {
 			st.fails = 0
@@ -1798,6 +1833,19 @@ func c04Exec(r *sim.Run, sci interface{}) {
 						return
 					}
 					used := c04Usable(u.Insts)
+					if c04Watching(pools) == 0 {
+						// nobody watches the service at the moment (its only pool was closed and
+						// is not re-created yet): the registry's state changes, and whether the
+						// controller would still turn a notification into a report is open, so
+						// none is sent; the next pool finds the state with its first listing
+						if len(fake.pending) == 0 {
+							fake.cur, lastNotified = used, used
+							note("u%d.%d:unwatched-change@%d", ui, k, stamp())
+							r.Eventf("u%d.%d registry changes while nobody watches", ui, k)
+							r.Probe("c04.registry_changed_while_unwatched")
+						}
+						continue
+					}
 					fake.pending = append(fake.pending, used)
 					sentT = append(sentT, r.Now())
 					note("u%d.%d:notify#%d@%d", ui, k, len(sentT), stamp())
@@ -1893,6 +1941,72 @@ func c04Exec(r *sim.Run, sci interface{}) {
 					slot = 0
 				}
 				old := slots[slot]
+				if old == nil {
+					continue
+				}
+				closeOld := func() bool {
+					old.state = c04Closing
+					var pnc interface{}
+					func() {
+						defer func() {
+							if x := recover(); x != nil {
+								pnc = x
+							}
+						}()
+						old.sp.close()
+					}()
+					old.state = c04Closed
+					note("reload%d:%s closed@%d", k, old.name, stamp())
+					r.Eventf("reload %d: %s closed", k, old.name)
+					if pnc != nil {
+						r.Violate("C04.panic", "closing pool %s panicked: %v\nhistory: %s", old.name, pnc, history())
+						return false
+					}
+					return true
+				}
+				gap := rl.Gap
+				if gap {
+					// the harness can only tell whether a notification is owed a report
+					// if it was sent while a pool was watching and is reported before
+					// the last watcher leaves: let the registry catch up first (if it
+					// does not, fall back to the create-then-close order)
+					for i := 0; i < 50 && len(sentT) > dispatched && !r.Violated() && !r.Aborted(); i++ {
+						r.Sleep(20 * time.Microsecond)
+					}
+					if len(sentT) > dispatched || r.Violated() || r.Aborted() || cleaned || slots[slot] != old {
+						gap = false
+					}
+				}
+				if gap {
+					note("reload%d:slot%d:close-first@%d", k, slot, stamp())
+					r.Eventf("reload %d slot %d: close first", k, slot)
+					if old.selecting > 0 {
+						r.Probe("c04.reload_while_selection_in_flight")
+					}
+					slots[slot] = nil
+					if !closeOld() {
+						return
+					}
+					r.Probe("c04.pool_closed_before_recreation")
+					if c04Watching(pools) == 0 {
+						r.Probe("c04.registry_without_any_watcher")
+					}
+					if rl.HoldUs >= 0 {
+						r.Sleep(time.Duration(rl.HoldUs) * time.Microsecond)
+					}
+					if r.Violated() || r.Aborted() || cleaned {
+						return
+					}
+					np := newPool(slot)
+					if np == nil {
+						return
+					}
+					np.afterGap = true
+					slots[slot] = np
+					note("reload%d:%s recreated@%d", k, np.name, stamp())
+					r.Eventf("reload %d: %s published after a gap", k, np.name)
+					continue
+				}
 				note("reload%d:slot%d@%d", k, slot, stamp())
 				r.Eventf("reload %d slot %d: create", k, slot)
 				np := newPool(slot)
@@ -1918,21 +2032,7 @@ func c04Exec(r *sim.Run, sci interface{}) {
 				if cleaned {
 					return
 				}
-				old.state = c04Closing
-				var pnc interface{}
-				func() {
-					defer func() {
-						if x := recover(); x != nil {
-							pnc = x
-						}
-					}()
-					old.sp.close()
-				}()
-				old.state = c04Closed
-				note("reload%d:%s closed@%d", k, old.name, stamp())
-				r.Eventf("reload %d: %s closed", k, old.name)
-				if pnc != nil {
-					r.Violate("C04.panic", "closing pool %s panicked: %v\nhistory: %s", old.name, pnc, history())
+				if !closeOld() {
 					return
 				}
 			}
@@ -2028,6 +2128,12 @@ func c04Exec(r *sim.Run, sci interface{}) {
 	if servedAfterReload {
 		r.Probe("c04.selection_on_reloaded_pool")
 	}
+	if servedAfterGap {
+		r.Probe("c04.selection_on_pool_recreated_after_gap")
+	}
+	if reportAfterGapServed {
+		r.Probe("c04.selection_after_report_to_pool_recreated_after_gap")
+	}
 	if reportAfterReloadServed {
 		r.Probe("c04.selection_after_report_to_reloaded_pool")
 	}
@@ -2122,7 +2228,7 @@ func TestVerifC04(t *testing.T) {
 		MaxSteps: 30000,
 		Rule: "scenario = drawn policy (5 policies + omitted), static list of 0-8 servers (weights all zero / equal / distinct), 0-4 discovery updates (0-8 instances, tagged or not, weights incl. zero, addresses fresh or shared between versions) issued by 1-2 updater tasks, " +
 			"and 1-6 selector tasks issuing 4-200 requests (client IP by RemoteAddr/X-Real-Ip/X-Forwarded-For, hash header, mirror flag, hold inside the transport); " +
-			"25% of the scenarios put a Retry policy (2-4 attempts, 1-20 ms wait) on the pool and script 1..max failing transport calls per request with list replacements landing between attempts; 45% of the discovery scenarios are report sequences that keep the instance URLs and change only weights (to/from 0) and tags (instances losing/gaining a serverTag); 42% of the discovery scenarios feed the instance maps through the real ServiceRegistry (Replace or incremental Apply/Delete notifications, bursts of back-to-back notifications, scripted listing errors) and the pools' own watchServers goroutines, of these 35% with a second pool watching the same service and 55% with 1-4 hot reloads (next pool generation created and published, then the old one closed) interleaved with the reports; two requests per slot are issued after quiescence; " +
+			"25% of the scenarios put a Retry policy (2-4 attempts, 1-20 ms wait) on the pool and script 1..max failing transport calls per request with list replacements landing between attempts; 45% of the discovery scenarios are report sequences that keep the instance URLs and change only weights (to/from 0) and tags (instances losing/gaining a serverTag); 42% of the discovery scenarios feed the instance maps through the real ServiceRegistry (Replace or incremental Apply/Delete notifications, bursts of back-to-back notifications, scripted listing errors) and the pools' own watchServers goroutines, of these 35% with a second pool watching the same service and 55% with 1-4 hot reloads (next pool generation created and published, then the old one closed; 35% of them in the other order: old one closed, gap with no pool, next one created) interleaved with the reports; two requests per slot are issued after quiescence; " +
 			"non-trivial = a policy rule was really exercised (a retry attempt forwarded after a list replacement, roundRobin fairness on a list of >=2 servers with k>=n, a repeated hash key on >=2 servers, a weighted choice with a zero-weight member, a no-server failure on an empty list, or two generations that both served requests); " +
 			"distinct = distinct (policy, generation shapes, start/end/outcome event order) signatures",
 		Real: []string{"pkg/filters/proxy ServerPool (NewServerPool, createLoadBalancer, useService, handle, doHandle, handleMirror, buildResponse)", "pkg/filters/proxy five LoadBalancer implementations + NewLoadBalancer", "ServerPoolSpec.Validate", "ServerPool.watchServers + its goroutine, ServerPool.close, InjectResiliencePolicy (several pool objects per run: two slots, successive generations)", "pkg/resilience RetryPolicy (NewPolicy, Wrap)", "pkg/object/serviceregistry ServiceRegistry (RegisterRegistry, watchRegistry, NewServiceWatcher, serviceWatcher.Stop, dispatch of Replace/Apply/Delete events to all watchers of the service, ListServiceInstances)", "pkg/context, pkg/protocols/httpprot request/response objects"},
@@ -2137,6 +2243,7 @@ func TestVerifC04(t *testing.T) {
 			"the order of a discovered list depends on Go map iteration in useService; no event or rule depends on it",
 			"a pool object has to follow every report made from the moment its own watcher exists (at the latest from the return of NewServerPool) until close() is called; reports made while close() runs may or may not be applied; a request is judged against the pool generation that was published when it started",
 			"a report is in force in every watching pool once virtual time has passed after it without a scheduler stall; a notification sent at an earlier virtual instant must have become a report by then (C04.discovery-report-lost otherwise); at most 8 notifications per run (a watcher queue holds 10 events)",
+			"close-then-create reloads start only after every notification already sent has been reported; while no pool watches the service the registry state changes without notification; a pool that did not ask the registered driver at creation is expected to serve the registry's current instances",
 			"a failed listing is no report: synchronous first listing failed = static list, listing for a notification failed = every pool keeps the list reported last",
 			"ipHash/headerHash stickiness is asserted within one report's balancer generation only; a key that moves after a report repeating the identical list is recorded as a probe, not a violation",
 		},
